@@ -874,6 +874,22 @@ func (e *evalEnv) call(x *ast.CallExpr) tv {
 				e.fail(x, "mapview(): values must be byte slices")
 			}
 			return tv{term: fmt.Sprintf("(mkSMap (select %s %s) (mvview (select %s %s) (select %s %s) %s))", e.st.H["MD"], m.term, e.st.H["MD"], m.term, e.st.H["ML"], m.term, e.st.H["I"]), typ: types.NewMap(mt.Key(), tString), smap: true}
+		case "sameheap":
+			// sameheap(): every heap component and the allocation counter are what they were at entry (loops of functions
+			// that neither write nor - on the paths that continue - allocate)
+			if e.old == nil {
+				e.fail(x, "sameheap() needs an old state")
+			}
+			parts := []string{fmt.Sprintf("(= %s %s)", e.st.Next, e.old.Next)}
+			for _, k := range heapKinds {
+				if e.st.H[k] != e.old.H[k] {
+					parts = append(parts, fmt.Sprintf("(= %s %s)", e.st.H[k], e.old.H[k]))
+				}
+			}
+			return tv{term: "(and " + strings.Join(parts, " ") + ")", typ: tBool}
+		case "escapes":
+			// escapes(): ghost count of the allocations made so far that can outlive the function (noalloc proofs)
+			return tv{term: e.g.escNow(e.st), typ: tInt}
 		case "allocstamp":
 			// allocstamp(): the allocation counter at this point (every object allocated later has a reference >= it)
 			return tv{term: e.st.Next, typ: tInt}
@@ -921,6 +937,23 @@ func (e *evalEnv) call(x *ast.CallExpr) tv {
 			e.fail(x, "string() of %s", v.typ)
 		}
 	}
+	// x.M() for an interface value x and a method all of whose implementations are trivial getters (Code(), IsRelay(), ...)
+	if sx, ok := x.Fun.(*ast.SelectorExpr); ok && len(x.Args) == 0 {
+		if _, isPkg := sx.X.(*ast.Ident); !isPkg || func() bool { _, b := e.tryName(sx.X.(*ast.Ident).Name); _, bb := e.bound[sx.X.(*ast.Ident).Name]; return b || bb }() {
+			if rv, evok := e.tryEvalValue(sx.X); evok && rv.typ != nil {
+				if it, isI := rv.typ.Underlying().(*types.Interface); isI {
+					for i := 0; i < it.NumMethods(); i++ {
+						if m := it.Method(i); m.Name() == sx.Sel.Name {
+							if t, _, ok := g.eng.ifaceGetter(g, e.a, rv.typ, m, rv.term, e.st); ok {
+								return tv{term: t, typ: m.Type().(*types.Signature).Results().At(0).Type()}
+							}
+							e.fail(x, "method %s is not a trivial getter in every implementation: it cannot be called in a contract", sx.Sel.Name)
+						}
+					}
+				}
+			}
+		}
+	}
 	// macro
 	if id, ok := x.Fun.(*ast.Ident); ok && e.pkg != nil {
 		mc := macros[e.pkg.Path()+"."+id.Name]
@@ -954,6 +987,13 @@ func (e *evalEnv) call(x *ast.CallExpr) tv {
 			}
 			if v.typ != nil && types.Identical(t.Underlying(), v.typ.Underlying()) {
 				return tv{term: v.term, typ: t, spec: v.spec}
+			}
+			if _, isI := t.Underlying().(*types.Interface); isI && v.typ != nil {
+				// conversion of a concrete (one-slot) value to an interface: boxing
+				switch e.g.sortOf(v.typ) {
+				case "Int", "Bool", "BSeq", "Slice", "Ptr", "Iface":
+					return tv{term: e.a.makeIface(v.typ, v.term, e.st, "conv"), typ: t}
+				}
 			}
 			e.fail(x, "unsupported conversion to %s from %s", t, v.typ)
 		}
@@ -1143,6 +1183,19 @@ func mentionsIdent(x ast.Expr, name string) bool {
 	return found
 }
 
+func (e *evalEnv) tryEvalValue(x ast.Expr) (v tv, ok bool) {
+	defer func() {
+		if r := recover(); r != nil {
+			if _, isCE := r.(contractError); isCE {
+				ok = false
+				return
+			}
+			panic(r)
+		}
+	}()
+	return e.value(e.eval(x)), true
+}
+
 func (e *evalEnv) tryEvalSlice(x ast.Expr) (v tv, ok bool) {
 	defer func() {
 		if r := recover(); r != nil {
@@ -1208,6 +1261,41 @@ func (a *Act) fnNames(phiEnv map[ssa.Value]string, results []string, st *State) 
 			for v, t := range phiEnv {
 				if phi, ok := v.(*ssa.Phi); ok && phi.Comment == name {
 					return tv{term: t, typ: phi.Type()}, true
+				}
+			}
+		}
+		// entry state (old(...)): a parameter is its value at entry, whatever was assigned to it later
+		if phiEnv == nil && results == nil && st == a.g.entry {
+			for i, p := range a.fn.Params {
+				if p.Name() == name && i < len(a.args) {
+					return tv{term: a.args[i], typ: p.Type()}, true
+				}
+			}
+		}
+		// outside loop invariants: the most recent binding of the source variable (a later assignment in the loop body wins
+		// over the phi the variable has at the loop head)
+		isParam := false
+		for _, p := range a.fn.Params {
+			if p.Name() == name {
+				isParam = true
+			}
+		}
+		for _, fv := range a.fn.FreeVars {
+			if fv.Name() == name {
+				isParam = true
+			}
+		}
+		if phiEnv == nil && st != a.g.entry && !isParam {
+			if v, ok := a.dbg[name]; ok {
+				_, isPhi := v.(*ssa.Phi)
+				switch v.Type().Underlying().(type) {
+				case *types.Array, *types.Struct:
+					isPhi = true // aggregates are addressed through their cells, not through a loaded copy
+				}
+				if !isPhi && a.loopPhiNamed(name) {
+					if t, bound := a.env[v]; bound {
+						return tv{term: t, typ: v.Type()}, true
+					}
 				}
 			}
 		}
@@ -1301,6 +1389,22 @@ func (a *Act) fnNames(phiEnv map[ssa.Value]string, results []string, st *State) 
 		}
 		return tv{}, false
 	}
+}
+
+// loopPhiNamed: some loop header has a phi for the source variable (the variable is assigned inside a loop)
+func (a *Act) loopPhiNamed(name string) bool {
+	for _, b := range a.fn.Blocks {
+		for _, in := range b.Instrs {
+			phi, ok := in.(*ssa.Phi)
+			if !ok {
+				break
+			}
+			if phi.Comment == name {
+				return true
+			}
+		}
+	}
+	return false
 }
 
 func findMacro(name string) *Macro {
